@@ -104,6 +104,8 @@ class Values:
         a helper's parameter to the caller's argument, a call of a spliced helper to what all its returns return.
         Returns (frame function, frame env, leaf expression); two expressions denote the same value when their leaves
         are the same AST node."""
+        if id(e) in self.an.syn_arg_frame:
+            f, env = self.an.syn_arg_frame[id(e)]
         from ..cfg import bind_args
 
         e = strip_cast(e)
@@ -209,6 +211,8 @@ class Values:
         """Every leaf expression `e` may evaluate to, across frames: all plain bindings of a local, both arms of a conditional
         expression, the caller's argument for a helper's parameter, every `return` of a spliced helper.
         -> [(frame function, frame env, leaf expression)]"""
+        if id(e) in self.an.syn_arg_frame:
+            f, env = self.an.syn_arg_frame[id(e)]
         from ..cfg import bind_args
 
         _busy = _busy or frozenset()
